@@ -1023,6 +1023,14 @@ class RTFFigure(BaseModel):
             return [v]
         return v
 
+    @field_validator("fig_height", "fig_width", mode="after")
+    def validate_positive_dimensions(cls, v):
+        """Validate that every figure dimension is positive."""
+        values = v if isinstance(v, list) else [v]
+        if any(value <= 0 for value in values):
+            raise ValueError(f"Figure dimensions must be positive. Given: {v}")
+        return v
+
     @field_validator("fig_align")
     def validate_alignment(cls, v):
         """Validate figure alignment value."""
